@@ -81,8 +81,16 @@ CLAIMS = {
          'functions compares the claimed gain of every move with the exact change of an independent reference Q (all graphs n<=4, all start partitions, all visiting orders, hierarchy levels).',
          PROOF_NOTE + ' Gain lemma and sum identities assumed in SMT (Lean-proved); nonlinear products kept uninterpreted with sign axioms for quotients.',
          'pyvc + z3 + gain lemma for finetune_und/_dir; woven per-move gain monitor over exhaustive small scopes (bounded) for the other optimisers', '5/C07'),
+ 'C12': ('other',
+         'Mixed: deductive (pyvc+z3, all n, all s,t) for retrieve_shortest_path: under the abstract contract FloydConsistent(L, SPL, hops, Pmat) of its producer (next hop is an existing '
+         'connection, hop count decreases by one, SPL[i,j] = L[i,p] + SPL[p,j], hops = 0 exactly for i = j or unreachable) the returned sequence starts at s, ends at t, has hops[s,t]+1 nodes, '
+         'moves along existing connections, its accumulated length is SPL[s,t], and it is empty exactly when there is no path of positive length. That distance_wei_floyd ESTABLISHES '
+         'FloydConsistent (for every transform, with exact ties) is what the property really turns on and is bounded only: the predicate is evaluated as a postcondition of the producer on all '
+         'directed graphs n<=3/4 and undirected n<=4/5 with lengths {0,1,2}, tie palettes, log/inv transforms; navigation_wu is bounded only.',
+         PROOF_NOTE + ' The producer contract FloydConsistent is an ASSUMED contract in the proved part (checked by the bounded tier on the producer).',
+         'pyvc + z3 for the consumer against an abstract producer contract; producer contract and navigation checked at run time on exhaustive small scopes (bounded)', '5/C12'),
 }
-for _pid in ['C03', 'C04', 'C08', 'C09', 'C10', 'C12', 'C14', 'C16', 'C18', 'C19', 'C20']:
+for _pid in ['C03', 'C04', 'C08', 'C09', 'C10', 'C14', 'C16', 'C18', 'C19', 'C20']:
     CLAIMS[_pid] = ('exploration', BND + 'See DESIGN.md section 5/%s for the clauses and why the deductive tier does not (yet) reach them.' % _pid,
                     BND_NOTE % _pid, 'runtime contracts on the real code over exhaustive small scopes (bounded stand-in)', '5/' + _pid)
 NOT_YET = 'check not built yet in this round (see DESIGN.md section 10); no claim is made'
@@ -118,7 +126,7 @@ def main():
             'add_only': True,
         },
         'engines': [
-            {'name': 'pyvc', 'path': 'engine/pyvc', 'serves_properties': ['C01', 'C02', 'C06', 'C07', 'C11', 'C15', 'C17'], 'kind_free_text': 'AST -> verification conditions -> z3/cvc5 over the real source, sidecar contracts (deductive, unbounded)'},
+            {'name': 'pyvc', 'path': 'engine/pyvc', 'serves_properties': ['C01', 'C02', 'C06', 'C07', 'C11', 'C12', 'C15', 'C17'], 'kind_free_text': 'AST -> verification conditions -> z3/cvc5 over the real source, sidecar contracts (deductive, unbounded)'},
             {'name': 'pyframe', 'path': 'engine/pyframe', 'serves_properties': ['C05', 'C13'], 'kind_free_text': 'static frame (mutation/alias) and effect (RNG) obligations over the real AST'},
             {'name': 'lean', 'path': 'engine/lean', 'serves_properties': [], 'kind_free_text': 'Lean 4 + Mathlib lemma library for finite sums/modularity identities'},
             {'name': 'weave', 'path': 'engine/weave.py', 'serves_properties': sorted(CLAIMS), 'kind_free_text': 'bounded stand-in: the same contracts executed on the real functions over exhaustive small scopes with a scripted RandomState'},
